@@ -5,7 +5,7 @@ From Utp Require Import Base.Prelude Wire.SeqNr Wire.Header Rtt.Rtte Rtt.Rtte_Pr
   Tx.Segments Conn.Recovery Conn.Msg Conn.VSockRec Conn.VSock Conn.VSockRun Conn.VObs
   Conn.VSock_Lemmas Conn.VSock_LemmasTx Conn.VSock_LemmasStep Conn.VSock_LemmasTimers
   Conn.VSock_LemmasPipe Conn.C17_StepLemmas Conn.C07_Proofs Conn.C05_Pred Conn.C06_Pred Conn.C0506_Pred2 Conn.C05_Pred3
-  Conn.C05_Proofs Conn.C05_Flight Conn.C05_StepLemmas Conn.C05_Segs Conn.C05_Walk Conn.C05_StepZw Conn.C05_StepWin
+  Conn.C05_Proofs Conn.C05_Flight Conn.C05_StepLemmas Conn.C05_Segs Conn.C05_Walk Conn.C05_StepZw Conn.C05_StepWin Conn.C05_StepExit
   Conn.C10_Pred Conn.VSock_Inv Conn.C10_Proofs Conn.C05_Refuted.
 
 (* ------------------------------------------------------------------ lists *)
@@ -267,7 +267,7 @@ Proof.
     rewrite Hopt in HW. congruence. }
   destruct HW as [HW|(idxs & c & Hc & H1 & H2 & H3)]; [unfold RECb in HW; congruence|].
   assert (Fi : Forall (fun i => (i < 1024)%nat) idxs).
-  { eapply Forall_impl; [|exact H2]. intros i Hi. cbn beta in Hi. unfold sgs in Hi. lia. }
+  { eapply Forall_impl; [|exact H2]. intros i Hi. cbn beta in Hi. unfold C05_StepWin.sgs in Hi. lia. }
   destruct (H3 eq_refl Fi) as (A & B0 & C0).
   unfold seqs_of in H1.
   destruct (rev (dout s')) as [|p1 later] eqn:Erev; [split; reflexivity|].
@@ -280,7 +280,7 @@ Proof.
   rewrite Ek, Nat2Z.id, fflight_fseg.
   assert (Hsum : plen_sum (map fpacket_of (p1 :: later)) = dby s').
   { rewrite <- Erev, <- plen_sum_rev, <- map_rev, rev_involutive. unfold dby, dout. apply plen_sum_data. }
-  unfold Wn, sgs in C3.
+  unfold C05_StepWin.Wn, C05_StepWin.sgs in C3.
   split.
   - change (fpacket_of p1 :: map fpacket_of later) with (map fpacket_of (p1 :: later)). rewrite Hsum.
     unfold c05_window_core. apply Z.leb_le. lia.
@@ -350,6 +350,60 @@ Proof.
   - intros s o (H1 & H2). apply c05_monitor_core_ok_step; assumption.
   - intros s o (H1 & H2) Hl. split; [apply ti_vstep; exact H1|apply sp_vstep_live; assumption].
   - split; [eapply ti_vsock_new; exact H0|eapply sp_vsock_new; [exact Hisn|exact H0]].
+Qed.
+
+(* ================================================================== leaving single-segment mode:
+   c05_rto_exit_ok2 *)
+Definition optm (cfg : vconfig) (s : vsock) : Prop :=
+  o_mtu_probe_max_retx (v_opts s) = vc_mtu_probe_max_retx cfg.
+
+Lemma optm_vstep cfg (s : vsock) o : optm cfg s -> optm cfg (vstep_state cci s o).
+Proof. unfold optm. destruct (vstep_keeps cci s o) as (K & _). rewrite K. auto. Qed.
+
+Lemma optm_vsock_new mk c (s : vsock) : vsock_new cci mk c = Some s -> optm c s.
+Proof.
+  intro H. unfold vsock_new in H.
+  destruct (match (if vc_incoming c then None else _) with Some r => _ | None => _ end); [|discriminate].
+  inversion H; subst. reflexivity.
+Qed.
+
+Lemma count_delivered_fseg (l : list seg) : count_delivered (map fseg_of l) = cds l.
+Proof. induction l as [|g r IH]; [reflexivity|]. cbn [map count_delivered cds fseg_of fg_delivered]. rewrite IH. reflexivity. Qed.
+
+Theorem c05_rto_exit_ok2_step : forall cfg (s : vsock) o,
+  ti s -> C05_Segs.sp s -> optm cfg s -> c05_rto_exit_ok2 cfg (fstep_of cci s o) = true.
+Proof.
+  intros cfg s o Hti Hsp Hopt.
+  destruct o; try (unfold c05_rto_exit_ok2; rewrite fstep_of_event; reflexivity).
+  destruct (poll cci (VSockRec.set_sends s script)) as [s' r] eqn:E.
+  unfold c05_rto_exit_ok2. rewrite (fstep_of_poll cci s script s' r E).
+  cbn [fs_event fs_result fs_pre fs_post fs_now].
+  destruct r; try reflexivity.
+  cbn [fp_of_vsock f_rto_retx f_seg_removed f_segs].
+  destruct (Z.ltb_spec 0 (v_rto_retransmissions s)) as [Hr|Hr]; [|reflexivity].
+  destruct (Z.eqb_spec (v_rto_retransmissions s') 0) as [Hz|Hz]; [|reflexivity]. cbn [andb].
+  destruct (poll_pframe0 cci _ _ _ E) as (_ & Pe & _). cbn [v_env_now VSockRec.set_sends] in Pe.
+  destruct (poll_pending_exit cci s script s' Hti Hsp Hr E) as [X|[X|[[X1 X2]|X]]]; [lia| | |].
+  - apply orb_true_iff. left. apply orb_true_iff. left. apply Z.ltb_lt. exact X.
+  - apply orb_true_iff. left. apply orb_true_iff. right. apply Z.ltb_lt.
+    rewrite map_length, firstn_map, !count_delivered_fseg. exact X2.
+  - apply orb_true_iff. right. destruct X as (Xe & init & g & Xl & Xp & Xd & Xm).
+    unfold probe_expiry_due. cbn [fp_of_vsock f_t_retransmit f_segs]. rewrite Pe, Xe. cbn [andb].
+    unfold C05_StepExit.sgs in Xl. rewrite Xl. unfold last_fseg. rewrite map_app, rev_app_distr. cbn [map rev app].
+    cbn [fseg_of fg_probe fg_delivered fg_retx]. rewrite Xp, Xd. cbn [andb negb].
+    apply Z.leb_le. unfold optm in Hopt. rewrite <- Hopt. exact Xm.
+Qed.
+
+Theorem c05_rto_exit_ok2_trace : forall mk c (s0 : vsock) ops,
+  0 <= vc_isn c < M16 -> vsock_new cci mk c = Some s0 ->
+  forallb (c05_rto_exit_ok2 c) (ftrace cci s0 ops) = true.
+Proof.
+  intros mk c s0 ops Hisn H0.
+  apply (ftrace_forallb_live cci (fun s => ti s /\ C05_Segs.sp s /\ optm c s)).
+  - intros s o (H1 & H2 & H3). apply c05_rto_exit_ok2_step; assumption.
+  - intros s o (H1 & H2 & H3) Hl. split; [apply ti_vstep; exact H1|].
+    split; [apply sp_vstep_live; assumption|apply optm_vstep; exact H3].
+  - split; [eapply ti_vsock_new; exact H0|]. split; [eapply sp_vsock_new; [exact Hisn|exact H0]|eapply optm_vsock_new; exact H0].
 Qed.
 
 End WithCC.
